@@ -29,16 +29,21 @@ func (f stubFactory) Create(version string, _ *vcommon.ProtocolConfig) (protocol
 // must be the same. The registries are exercised with concurrent registrations (also of the
 // same key) and lookups. The binary is built with -race: a data race ends the process.
 func stressKind(c *proto.Case) interface{} {
-	Shared = true
 	g := int(c.Int("goroutines"))
 	var cases []*proto.Case
 	for _, l := range proto.Arr(c.Body["lines"]) {
 		_ = proto.Read(strings.NewReader(l.(string)+"\n"), func(x *proto.Case) { cases = append(cases, x) })
 	}
+	// reference answers: every case on component instances of its own, one after the other
+	Shared = false
+	PlainValidators = true
 	seq := make([]string, len(cases))
 	for i, x := range cases {
 		seq[i] = string(proto.Marshal(Run(x)))
 	}
+	// from here on one instance of every component per configuration, first used by all
+	// goroutines at once (nothing has warmed it up)
+	Shared = true
 	var mu sync.Mutex
 	mismatch := 0
 	var first interface{}
